@@ -46,6 +46,10 @@ func main() {
 			for _, g := range a.Gates() {
 				fmt.Printf("  %-5v must=%-5v %s   deps=%v  @%s\n", g.FailWhen, g.MustPass, g.Cond, g.Deps, p.Pos(g.Pos))
 			}
+			for _, b := range a.Bounds() {
+				fmt.Printf("  bound %s\n", b)
+			}
+			fmt.Printf("  loops %v\n", a.FullLoops())
 		}
 	case "efx":
 		fs := flag.NewFlagSet("efx", flag.ExitOnError)
